@@ -354,12 +354,32 @@ fn run_pipeline(sink: &mut Sink, rng: &mut Rng, args: &Args, ndicts: usize, ntex
                 }
                 let eos = lat.verif_eos();
                 let nchars = tok.verif_input().current_chars().len();
+                // independent enumeration of the dictionary candidates: every indexed entry matching at a position where some
+                // word ends (or 0) and ending where a word may begin -- whether or not the lattice holds it
+                let mut expected: Vec<(usize, usize, u32)> = vec![];
+                {
+                    let inp = tok.verif_input();
+                    let bytes = inp.current().as_bytes();
+                    let offs = inp.curr_byte_offsets().to_vec();
+                    for (ch_off, byte_off) in offs.iter().enumerate() {
+                        let reachable = ch_off == 0 || all.iter().any(|x| x.2.end == ch_off);
+                        if !reachable {
+                            continue;
+                        }
+                        for e in dict.lexicon().lookup(bytes, *byte_off) {
+                            if e.end < bytes.len() && !inp.can_bow(e.end) {
+                                continue;
+                            }
+                            expected.push((ch_off, inp.ch_idx(e.end), e.word_id.as_raw()));
+                        }
+                    }
+                }
                 let mut ml = sudachi::analysis::mlist::MorphemeList::empty(&dict);
                 ml.collect_results(&mut tok).unwrap();
                 let morph: Vec<(u32, usize, i32)> = ml.iter().map(|m| (m.word_id().as_raw(), m.end_c(), m.total_cost())).collect();
-                Some((all, eos, nchars, morph))
+                Some((all, eos, nchars, morph, expected))
             });
-            let (all, eos, nchars, morph) = match r {
+            let (all, eos, nchars, morph, expected) = match r {
                 Ok(Some(x)) => x,
                 Ok(None) => continue,
                 Err(p) => {
@@ -372,13 +392,21 @@ fn run_pipeline(sink: &mut Sink, rng: &mut Rng, args: &Args, ndicts: usize, ntex
             if nchars == 0 {
                 continue;
             }
+            // every dictionary candidate must be in the lattice ("any other sequence of candidate words" ranges over them)
+            let mut missing = None;
+            for (b, e, w) in &expected {
+                if !all.iter().any(|x| x.2.begin == *b && x.2.end == *e && x.2.word_id == *w) {
+                    missing = Some(format!("dictionary word {:#x} covering characters {}..{} of the normalised text is not a lattice candidate", w, b, e));
+                    break;
+                }
+            }
             // nodes in insertion order by begin (stable)
             let mut order: Vec<usize> = (0..all.len()).collect();
             order.sort_by_key(|k| all[*k].2.begin);
             let nodes: Vec<N> = order.iter().map(|k| { let n = &all[*k].2; N { b: n.begin, e: n.end, l: n.left_id, r: n.right_id, c: n.cost } }).collect();
             let costs: Vec<i32> = order.iter().map(|k| all[*k].2.total_cost).collect();
             // the implementation's path: follow the back pointers from EOS
-            let mut fail = None;
+            let mut fail = missing;
             let mut path = vec![];
             if let Some((e, i, _)) = eos {
                 let (mut ce, mut ci) = (e, i);
